@@ -7,7 +7,6 @@ import (
 	"crypto"
 	"crypto/sha256"
 	"crypto/sha512"
-	"errors"
 	"flag"
 	"fmt"
 	"io"
@@ -30,6 +29,7 @@ import (
 
 	"verif/internal/ev"
 	"verif/internal/fwgen"
+	"verif/internal/pki"
 	"verif/internal/refsnp"
 	"verif/internal/reftdx"
 )
@@ -75,10 +75,13 @@ type recCA struct{ primary string }
 func (r *recCA) PrimarySigningKeyVersion(context.Context) (string, error) { return r.primary, nil }
 func (r *recCA) PrimaryRootKeyVersion(context.Context) (string, error)    { return "root", nil }
 func (r *recCA) Certificate(_ context.Context, k string) ([]byte, error) {
-	return []byte("DER certificate of " + k), nil
+	if k != r.primary {
+		return nil, fmt.Errorf("double: no certificate for key version %q", k)
+	}
+	return pki.DevSigningCertDER(), nil
 }
 func (r *recCA) CABundle(_ context.Context, k string) ([]byte, error) {
-	return []byte("PEM bundle for " + k), nil
+	return pki.DevBundlePEM(), nil
 }
 func (r *recCA) NewMutation() styp.CertificateAuthorityMutation                    { return nil }
 func (r *recCA) Finalize(context.Context, styp.CertificateAuthorityMutation) error { return nil }
@@ -93,9 +96,10 @@ type recSigner struct {
 func (s *recSigner) Sign(_ context.Context, k string, d styp.Digest, _ crypto.SignerOpts) ([]byte, error) {
 	s.keys = append(s.keys, k)
 	s.digests = append(s.digests, append([]byte(nil), d.SHA256...))
-	return []byte("signature"), nil
+	// a real RSA-PSS signature by the key the double's certificate certifies
+	return pki.DevSignDigest(d.SHA256)
 }
-func (s *recSigner) PublicKey(context.Context, string) ([]byte, error) { return nil, errors.New("n/a") }
+func (s *recSigner) PublicKey(context.Context, string) ([]byte, error) { return pki.DevPublicKeyDER() }
 
 type request struct {
 	layout    *fwgen.Layout
@@ -339,7 +343,7 @@ func checkGolden(g *epb.VMGoldenMeasurement, r request, signed bool, primary str
 		if g.Timestamp.GetSeconds() != r.timestamp.Unix() || int(g.Timestamp.GetNanos()) != r.timestamp.Nanosecond() {
 			return "C06/timestamp-differs", fmt.Sprintf("timestamp %v, requested %v", g.Timestamp.AsTime(), r.timestamp)
 		}
-		if string(g.Cert) != "DER certificate of "+primary || string(g.CaBundle) != "PEM bundle for "+primary {
+		if !bytes.Equal(g.Cert, pki.DevSigningCertDER()) || !bytes.Equal(g.CaBundle, pki.DevBundlePEM()) {
 			return "C06/certificate-not-of-current-primary", fmt.Sprintf("cert %q bundle %q, primary %q", g.Cert, g.CaBundle, primary)
 		}
 	}
